@@ -959,6 +959,7 @@ class Server:
             path_io_factory=self.path_io_factory,
             path_timeout=self.path_timeout,
             extra_workers=set(),
+            throttles_per_user={},
             # response queued when writer is gone would be waited for ever
             response=lambda *args: (
                 response_writer.done() or response_queue.put_nowait(args)
@@ -1163,12 +1164,20 @@ class Server:
                 )
                 self.throttle_per_user[connection.user] = throttle
 
-            connection.command_connection.throttles.update(
-                user_global=self.throttle_per_user[connection.user],
-                user_per_connection=StreamThrottle.from_limits(
+            # per connection limit of user holds as long as connection
+            # lives: sending USER again does not start it from scratch
+            if connection.user not in connection.throttles_per_user:
+                throttle = StreamThrottle.from_limits(
                     connection.user.read_speed_limit_per_connection,
                     connection.user.write_speed_limit_per_connection,
-                ),
+                )
+                connection.throttles_per_user[connection.user] = throttle
+
+            connection.command_connection.throttles.update(
+                user_global=self.throttle_per_user[connection.user],
+                user_per_connection=connection.throttles_per_user[
+                    connection.user
+                ],
             )
         connection.response(code, info)
         return True
